@@ -40,6 +40,9 @@ pub struct Runner {
     pub fresh_ctr: u64,
     pub keep_log: bool,
     pub log: Vec<String>,
+    /// (r0, r1, S) of every pair after the last delivered event: the recorded history that the
+    /// monotonicity of C03 is re-checked over, independently of the per-step delta logic
+    pub share_history: Vec<(u128, u128, u128)>,
 }
 
 pub const ACTOR_NAMES: [&str; 7] = ["owner", "lpone", "lptwo", "trader", "tradez", "whale", "donor"];
@@ -128,8 +131,25 @@ pub fn gen_world(rng: &mut Rng, p: &Profile) -> (WorldCfg, u8) {
 }
 
 impl Runner {
-    pub fn new(seed: u64, profile: Profile) -> Runner {
+    pub fn new(seed: u64, mut profile: Profile) -> Runner {
         let mut rng = Rng::new(seed);
+        // swarm: every run perturbs the actor mix and the fault rates of its profile, so that
+        // some runs lack some actor kinds entirely and others are dominated by them
+        for w in profile.actors.iter_mut() {
+            *w = *w * *rng.pick(&[0u32, 1, 1, 1, 2, 3]);
+        }
+        if profile.actors.iter().all(|w| *w == 0) {
+            profile.actors[0] = 1;
+        }
+        for r in [
+            &mut profile.drop_rate,
+            &mut profile.dup_rate,
+            &mut profile.delay_rate,
+            &mut profile.clock_jump_rate,
+            &mut profile.fail_at_rate,
+        ] {
+            *r = (*r * *rng.pick(&[0u64, 1, 1, 2, 4])).min(900);
+        }
         let (cfg, magnitude) = gen_world(&mut rng, &profile);
         let sim = Sim::new(&cfg);
         let ordering = rng.weighted(&[50, 30, 10, 10]) as u8; // fifo, random, lifo, adversarial
@@ -152,6 +172,7 @@ impl Runner {
             fresh_ctr: 0,
             keep_log: false,
             log: vec![],
+            share_history: vec![],
         }
     }
 
@@ -218,8 +239,64 @@ impl Runner {
         if !dry_run && !ev.op.is_audit() {
             self.delivered += 1;
         }
+        self.check_share_history(&ev, out.outcome_tag);
         self.events.push(ev);
         out.outcome_tag
+    }
+
+    /// C03.b: over the recorded history, r0*r1/S^2 of every pair is a monotone sequence; a
+    /// dry-run or audit must leave every pair exactly as it was (else the harness is broken).
+    fn check_share_history(&mut self, ev: &Event, outcome: &str) {
+        use crate::bignat::n;
+        let np = self.sim.model.pairs.len();
+        for i in 0..np {
+            let p = &self.sim.model.pairs[i];
+            if !p.standard {
+                if self.share_history.len() <= i {
+                    self.share_history.push((0, 0, 0));
+                }
+                continue;
+            }
+            let cur = self.sim.reserves_pre(p);
+            if self.share_history.len() <= i {
+                self.share_history.push(cur);
+                continue;
+            }
+            let prev = self.share_history[i];
+            if prev == cur {
+                continue;
+            }
+            if ev.dry_run || ev.op.is_audit() {
+                panic!("harness: dry-run/audit step {} changed pair {} from {:?} to {:?}", ev.seq, i, prev, cur);
+            }
+            self.share_history[i] = cur;
+            if prev.2 == 0 || cur.2 == 0 {
+                continue;
+            }
+            self.cov.eval("C03", "b");
+            let lhs = &(&n(cur.0) * &n(cur.1)) * &(&n(prev.2) * &n(prev.2));
+            let rhs = &(&n(prev.0) * &n(prev.1)) * &(&n(cur.2) * &n(cur.2));
+            if lhs < rhs {
+                // the step oracle must have seen the same thing; report only what it missed
+                let seen = self
+                    .cov
+                    .violations
+                    .iter()
+                    .any(|v| v.prop == "C03" && v.clause == "a" && v.seq == ev.seq);
+                if !seen {
+                    self.cov.violate(
+                        "C03",
+                        "b",
+                        "history-not-monotone",
+                        ev.seq,
+                        format!(
+                            "pair #{} (r0,r1,S) {:?} -> {:?} across {} ({}) without a step-level alarm",
+                            i, prev, cur, ev.op.kind(), outcome
+                        ),
+                    );
+                }
+            }
+        }
     }
 
     fn deliver_due(&mut self) {
